@@ -640,6 +640,13 @@ pub extern "C" fn tsrun_array_set(
         return TsRunResult::err(ctx, "Value is not an array".to_string());
     };
 
+    // Array indices end at 2^32 - 2: anything beyond is not an element (and extending the
+    // array up to an arbitrary usize would never finish)
+    if index >= u32::MAX as usize {
+        drop(borrowed);
+        return TsRunResult::err(ctx, "Invalid array index".to_string());
+    }
+
     // Extend array if needed
     while elements.len() <= index {
         elements.push(JsValue::Undefined);
@@ -867,9 +874,13 @@ pub extern "C" fn tsrun_call(
         Vec::new()
     } else {
         (0..argc)
-            .filter_map(|i| unsafe {
+            .map(|i| unsafe {
+                // A NULL element is `undefined`: leaving it out would shift the later arguments
                 let arg_ptr = *args.add(i);
-                arg_ptr.as_ref().map(|v| v.value().clone())
+                arg_ptr
+                    .as_ref()
+                    .map(|v| v.value().clone())
+                    .unwrap_or(JsValue::Undefined)
             })
             .collect()
     };
@@ -936,9 +947,13 @@ pub extern "C" fn tsrun_call_method(
         Vec::new()
     } else {
         (0..argc)
-            .filter_map(|i| unsafe {
+            .map(|i| unsafe {
+                // A NULL element is `undefined`: leaving it out would shift the later arguments
                 let arg_ptr = *args.add(i);
-                arg_ptr.as_ref().map(|v| v.value().clone())
+                arg_ptr
+                    .as_ref()
+                    .map(|v| v.value().clone())
+                    .unwrap_or(JsValue::Undefined)
             })
             .collect()
     };
